@@ -67,6 +67,9 @@ def run(ctx):
     ctx.assume("cm.packer[fmt] is struct.Struct('<'+fmt); buff.read(n) returns the next n bytes or fewer at EOF (then unpack raises)")
 
 
+STREAM_LEN = 8
+
+
 def _run_reader(repo, folder, m, f, asg, backing=None):
     it = Interp(repo, folder, asg=asg, hooks=_hooks(m))
     it.max_split = 4
@@ -78,14 +81,18 @@ def _run_reader(repo, folder, m, f, asg, backing=None):
 def _check_reader(ctx, repo, folder, m, f, signed, p1):
     def run(asg):
         a = dict(asg)
-        v, st, it = _run_reader(repo, folder, m, f, a)
+        # an input of STREAM_LEN arbitrary bytes followed by end of file: a reader that honours the five-byte limit never
+        # reaches the end; one that keeps following continuation bits runs into it (and the exploration stays finite)
+        backing = BytesV([[a.get(("s", k, i), ("s", k, i)) for i in range(8)] for k in range(STREAM_LEN)])
+        v, st, it = _run_reader(repo, folder, m, f, a, backing=backing)
         return a, v, st.pos
 
     res = explore(run)
     seen_len = set()
     for asg0, r in res:
         if isinstance(r, Raised):
-            ctx.check("reader-accepts", f.qualname, False, f, f.qualname, "%s raises %s on some byte sequence" % (f.qualname, r), node=r.node, witness=_wit(asg0))
+            ctx.check("reader-accepts", f.qualname, False, f, f.qualname, "%s raises %s on some sequence of %d bytes (an encoding ends with its fifth byte at the latest)" % (
+                f.qualname, r, STREAM_LEN), node=r.node, witness=_wit(asg0))
             continue
         asg, v, pos = r
         ctx.count("reader_paths")
